@@ -1,6 +1,7 @@
 import ReplicatProofs.Lemmas.RepoCrashPlans
 import ReplicatProofs.Lemmas.SnapshotPlan
 import ReplicatProofs.Lemmas.LocalUpload
+import ReplicatProofs.Lemmas.LocalDuel
 /-!
 # C03 — interrupted commands leave a consistent, usable repository   (PARTIAL: see the end of this comment)
 
@@ -215,6 +216,67 @@ theorem failed_attempt_invisible (fs : FS) (dir tmp : Path) (pieces : List Bytes
     unfold existsFile download vget
     simp [hn]
 
+/-! ## two uploads of ONE object in flight at the same time (a chunk that repeats in the stream, concurrency > 1) -/
+open Replicat.LocalUpload in
+/-- **Concurrent uploads of one object are atomic for every observer — when their temporaries differ.**  Two attempts for the
+same name, their file-system steps interleaved by ANY schedule, the process killed after ANY of them (every prefix of a schedule is
+a schedule): what `list_files` / `exists` / `download` show is the old map, or the old map with the complete payload of worker 0,
+or with the complete payload of worker 1 — never a partial object, never a mixture. -/
+theorem concurrent_uploads_atomic (fs : FS) (c0 c1 : UpCfg) (hname : c1.name = c0.name) (hnt : isTmp c0.name = false)
+    (ht0 : isTmp c0.tmp = true) (ht1 : isTmp c1.tmp = true) (hne : c0.tmp ≠ c1.tmp) (sched : List Bool) :
+    (∀ n, vget (duelRun c0 c1 fs sched).fs n = vget fs n) ∨
+    (∀ n, vget (duelRun c0 c1 fs sched).fs n = vget (putObj fs c0.name c0.pieces.flatten) n) ∨
+    (∀ n, vget (duelRun c0 c1 fs sched).fs n = vget (putObj fs c0.name c1.pieces.flatten) n) := by
+  obtain ⟨hv, _, _⟩ := duelRun_inv fs c0.name c0 c1 rfl hname hnt ht0 ht1 hne sched
+  rcases hv with hv | ⟨d, hd, hv⟩
+  · exact Or.inl hv
+  · simp only [mem_cons, not_mem_nil, or_false] at hd
+    rcases hd with rfl | rfl
+    · exact Or.inr (Or.inl hv)
+    · exact Or.inr (Or.inr hv)
+
+open Replicat.LocalUpload in
+/-- **… and the code's temporaries do differ.**  `_destination_temp` as it stands (regenerated: `Gen.localTempPrivate`,
+`Gen.localTempPerCall`) takes the temporary of every call from a unique-name generator; two uploads in flight got two different
+paths `tok0 ≠ tok1` from it (the generator's contract), both with the suffix the listing skips: the conclusion of
+`concurrent_uploads_atomic` holds for the code's choice of temporaries.  With a temporary computed from the destination alone this
+theorem does not compile (and `shared_temporary_breaks_atomicity` is what happens). -/
+theorem code_uploads_atomic (fs : FS) (dir name tok0 tok1 : Path) (p0 p1 : List Bytes) (hnt : isTmp name = false)
+    (ht0 : isTmp tok0 = true) (ht1 : isTmp tok1 = true) (hne : tok0 ≠ tok1) (sched : List Bool) :
+    Gen.localTempPerCall = true ∧
+    let c0 : UpCfg := ⟨dir, name, codeTemp name tok0, p0⟩
+    let c1 : UpCfg := ⟨dir, name, codeTemp name tok1, p1⟩
+    ((∀ n, vget (duelRun c0 c1 fs sched).fs n = vget fs n) ∨
+     (∀ n, vget (duelRun c0 c1 fs sched).fs n = vget (putObj fs name p0.flatten) n) ∨
+     (∀ n, vget (duelRun c0 c1 fs sched).fs n = vget (putObj fs name p1.flatten) n)) := by
+  have hpriv : Gen.localTempPrivate = true := by decide
+  have hc : ∀ tok, codeTemp name tok = tok := by intro tok; simp [codeTemp, tempFor, hpriv]
+  refine ⟨by decide, ?_⟩
+  simp only [hc]
+  exact concurrent_uploads_atomic fs ⟨dir, name, tok0, p0⟩ ⟨dir, name, tok1, p1⟩ rfl hnt ht0 ht1 hne sched
+
+open Replicat.LocalUpload in
+/-- **A shared temporary breaks it.**  With the temporary computed from the destination alone (`tempFor false`) both uploads write
+through one file: worker 0 has written its payload, worker 1 opens (truncates) the same temporary, worker 0 renames it — the
+object every observer now sees under the final name is empty: neither the old state (absent) nor either payload. -/
+theorem shared_temporary_breaks_atomicity :
+    ∃ (fs : FS) (c0 c1 : UpCfg) (sched : List Bool),
+      c1.name = c0.name ∧ isTmp c0.name = false ∧ c0.tmp = tempFor false c0.name "t0" ∧ c1.tmp = tempFor false c1.name "t1" ∧
+      isTmp c0.tmp = true ∧
+      vget (duelRun c0 c1 fs sched).fs c0.name ≠ vget fs c0.name ∧
+      vget (duelRun c0 c1 fs sched).fs c0.name ≠ vget (putObj fs c0.name c0.pieces.flatten) c0.name ∧
+      vget (duelRun c0 c1 fs sched).fs c0.name ≠ vget (putObj fs c0.name c1.pieces.flatten) c0.name :=
+  ⟨⟨[], []⟩, ⟨"data", "data/ab", "data/ab.tmp", [[1, 2]]⟩, ⟨"data", "data/ab", "data/ab.tmp", [[1, 2]]⟩,
+    [false, false, false, true, true, false], by decide +kernel⟩
+
+open Replicat.LocalUpload in
+/-- the two-worker machine runs the SAME steps as `upload_atomic`'s step list: worker 0 scheduled alone for `k` steps leaves
+exactly the file system after the first `k` steps of `uploadSteps` -/
+theorem duel_solo_is_upload (fs : FS) (c0 c1 : UpCfg) (k : Nat) :
+    (duelRun c0 c1 fs (replicate k false)).fs = run fs ((uploadSteps c0.dir c0.name c0.tmp c0.pieces).take k) := by
+  unfold duelRun
+  rw [solo_rest c0 c1 .init k .init fs, rest_init]
+
 /-! ## non-vacuity and necessity of the order -/
 
 /-- a consistent repository, a snapshot command, and an accepted crash trace (one chunk uploaded, the process dies) -/
@@ -242,6 +304,16 @@ example :
     vget (LocalUpload.run fs ((uploadSteps "data" "data/ab" "data/ab_x.tmp" [[2], [3]]).take 4)) "data/ab" = some [1] ∧
     vget (LocalUpload.run fs (uploadSteps "data" "data/ab" "data/ab_x.tmp" [[2], [3]])) "data/ab" = some [2, 3] ∧
     LocalUpload.listFiles (LocalUpload.run fs ((uploadSteps "data" "data/ab" "data/ab_x.tmp" [[2], [3]]).take 4)) "data/" = ["data/ab"] := by
+  decide +kernel
+
+open Replicat.LocalUpload in
+/-- two uploads with private temporaries, interleaved, killed after worker 1 truncated ITS temporary and worker 0 renamed: the
+complete payload of worker 0 is what a reader gets (the hypotheses of `concurrent_uploads_atomic` are satisfiable) -/
+example :
+    let c0 : UpCfg := ⟨"data", "data/ab", "data/ab_x0.tmp", [[1, 2]]⟩
+    let c1 : UpCfg := ⟨"data", "data/ab", "data/ab_x1.tmp", [[1, 2]]⟩
+    isTmp c0.tmp = true ∧ isTmp c1.tmp = true ∧ isTmp c0.name = false ∧ c0.tmp ≠ c1.tmp ∧
+    vget (duelRun c0 c1 ⟨[], []⟩ [false, false, false, true, true, false]).fs "data/ab" = some [1, 2] := by
   decide +kernel
 
 end Replicat.C03
